@@ -14,10 +14,13 @@ IsRecv(S)  == S.in.t = "recv"
 IsAdmin(S) == S.in.t = "admin"
 IsOrbiterPacket(S) == IsRecv(S) /\ ForOrbiter(S.in)
 \* an orbiter packet carrying a payload that parses and validates
-HasPayload(S) == IsOrbiterPacket(S) /\ ParseOK(S.in) /\ PayloadValid(S.in)
+HasPayload(S) == IsOrbiterPacket(S) /\ ParseOK(S.in) /\ PayloadValid(S.in) /\ AmtKind(S.in) \in {"num", "huge"}
 \* (ledger predicates need the delivered denom to be one the projection tracks; packets in other
 \* denominations are judged by C01's "no larger orbiter balance" and by C16)
+\* They also need the payload and the amount to be the ones the input describes (not a mutated
+\* memo, not an encoding whose value the abstraction does not know).
 IsTransfer(S) == IsOrbiterPacket(S) /\ S.ok /\ ~S.panic /\ S.in.base \in Denom
+                   /\ S.in.mk = "PAYLOAD" /\ AmtKind(S.in) = "num"
 
 D(S)   == S.in.base
 A(S)   == S.in.amt
@@ -101,6 +104,7 @@ CreditsOf(AA, fs) == [r \in Acct |-> SumSeq([j \in DOMAIN fs |->
 CleanEnv(s) == ~s.env.ftfPaused /\ s.env.blocked = {} /\ ~s.env.cctpPaused
 Prop_C04(S) == HasFee(S) /\ AmtKind(S.in) = "num" =>
   LET fs == TheFee(S).fees IN
+  /\ ~S.panic                                   \* refused means an error acknowledgement, not an abort
   /\ (TheFee(S).at = "FEE" /\ FeeRefused(A(S), fs) => ~S.ok)
   /\ (S.ok =>
         /\ TheFee(S).at = "FEE" /\ ~FeeRefused(A(S), fs)
@@ -207,7 +211,9 @@ Prop_C12(S) ==
   THEN LET cin  == [d |-> D(S), n |-> -Delta(S, Esc(S), D(S))]
            cout == [d |-> OutDenom(S), n |-> Forwarded(S)]
        IN Stats(S.post) = Stats(AddTransfer(S.pre, "IBC", SrcCp(S.in.chan), Dst(S)[1], Dst(S)[2], cin, cout))
-  ELSE S.in.t # "reimport" => Stats(S.post) = Stats(S.pre)
+  \* refused transfers, non-orbiter traffic, admin messages, deposits: unchanged (successful orbiter
+  \* packets outside the abstraction - mutated memos, odd amount spellings - are not judged here)
+  ELSE S.in.t # "reimport" /\ ~(IsOrbiterPacket(S) /\ S.ok) => Stats(S.post) = Stats(S.pre)
 
 (* C18 The passthrough payload size limit in force is enforced *)
 Limit(s) == IF s.hasParams THEN s.maxPT ELSE 0
@@ -219,6 +225,12 @@ Prop_C18(S) ==
   /\ (~(IsAdmin(S) /\ S.in.rpc = "UpdateParams" /\ S.ok) /\ S.in.t # "reimport" =>
         Limit(S.post) = Limit(S.pre))
   /\ (S.hasQ => S.q.qParamsOk /\ S.q.qParams = Limit(S.post))
+
+(* C14 No input makes the receive path panic; malformed payloads are refused *)
+Prop_C14(S) == IsRecv(S) =>
+  /\ ~S.panic
+  /\ (IsOrbiterPacket(S) /\ MustRefuse(S.in) => ~S.ok)
+  /\ (IsOrbiterPacket(S) /\ S.in.mk = "PAYLOAD" /\ (~ParseOK(S.in) \/ ~PayloadValid(S.in)) => ~S.ok)
 
 (* C17 (history part) export / import is the identity on the module's state *)
 Prop_C17(S) == S.in.t = "reimport" =>
